@@ -218,7 +218,9 @@ def gen_scenarios(ctx):
 
     # asymmetric narrow pdfs with most of their mass in a tail, selection-free: total weight ~1 only if gamma2's own tails are used
     sc = new(c2={'kind': 'const', 'c': [0.5, 0, 0, 0, 0.25]}, ns=[2, 2], pts=[4], gamma_bounds=[0.5, 256.0], gamma_pts=40,
-             additional_gammas=[], family='2d-fine-asym', selfree=True, total_one=2.5e-2)
+             additional_gammas=[], family='2d-fine-asym', selfree=True, total_one=2.5e-2, no_coq=True)
+    # (no_coq: 1600 pdf values down to 1e-300 make exact rational arithmetic take minutes; this scenario is decided by the predicates on the
+    #  implementation -- result = theta*S*total weight, total weight ~ 1 -- and the same pdfs go through Coq on the small grids of family 2d)
     for name, pra in (ASYM_TOTAL_ONE[::2] if ctx.quick and rng.random() < 0.5 else ASYM_TOTAL_ONE[1::2] if ctx.quick else ASYM_TOTAL_ONE):
         add(sc, op='int2', pdf2=name, params=list(pra), ext=True, theta=2.0)
 
@@ -517,6 +519,8 @@ def scenarios(ctx):
                 ctx.count('non-finite result')
                 key = KEY_MIXSYM if op['op'] == 'mixsym' else None
                 violation('%s returned non-finite entries (params=%r)' % (FN[op['op']], op['params']), key, sc, op, {'res': rec.get('res')})
+            elif sc.get('no_coq'):
+                ctx.count('predicates only (no Coq case)')
             elif not bad or op['op'] != 'vourlaki':
                 sq = 0.0
                 if op['op'] in ('pp2', 'mixpp'):
